@@ -103,7 +103,15 @@ pub fn cases(rng: &mut Rng, tier: &str) -> (Vec<Case>, bool) {
                         takes.push((ops.len() - 1).to_string());
                         ops.push("state".to_string());
                         let st = sess.step("state");
-                        if st != "Running" || guard > 200 {
+                        if st != "Running" {
+                            break;
+                        }
+                        if guard > 200 {
+                            // a PRINT-only program must have ended long ago: stop it so the walk can go on
+                            ops.push("break".to_string());
+                            sess.step("break");
+                            ops.push("take".to_string());
+                            sess.step("take");
                             break;
                         }
                         ops.push("cont".to_string());
